@@ -8,6 +8,7 @@ pub fn run_case(case: &J, out: &mut Out, ic_build: bool) {
         "sched" => crate::sched::run_sched(case, out, ic_build),
         "ident" => crate::textual::run_ident(case, out),
         "fuzz" => crate::textual::run_fuzz(case, out),
+        "key" => crate::textual::run_key(case, out),
         "find" => crate::paths::run_find(case, out),
         x => out.ev(serde_json::json!({"ev":"skip","why":crate::enc::cps(&format!("unknown runner {}", x))})),
     }
